@@ -228,6 +228,7 @@ Proof.
             | Some s => match nid_parse s with Some n => Some (Some n) | None => None end
             | None => Some None end) as [ob|]; [|reflexivity].
   destruct (list_eqb_spec dom (domain cfg)) as [->|Hd]; cbn [negb]; [|reflexivity].
+  destruct (_ && (max_channels cfg <=? _)); [reflexivity|].
   set (who := match ob with Some n => _ | None => _ end).
   assert (Hwho : (exists e, who = inl e) \/
                  (exists n, who = inr n /\
@@ -461,7 +462,7 @@ Proof. intros cfg ops u l _ H. exact (C14_subscriptions cfg ops u l H). Qed.
 Definition subs0_cfg : scfg :=
   {| domain := bs "localhost"; has_mod := false; op_auth := false; op_fbp := false; op_fev := false; op_spp := false;
      proto := []; max_clients := 10; max_subs := 0; max_payload_cfg := 1000; max_inflight := 10; max_message := 1000;
-     keepalive := 60; min_keepalive := 10; max_conns := 10; pool_budget := 100000 |}.
+     keepalive := 60; min_keepalive := 10; max_conns := 10; pool_budget := 100000; max_channels := 100 |}.
 Definition subs0_ops : list op :=
   [Open 1;
    Frame 1 (build "CONNECT" [(bs "version", VNum 1); (bs "heartbeat_interval", VNum 0)]) None [] [];
